@@ -270,5 +270,34 @@ pub fn ring_run(
     Some((snap.start_offset, snap.end_offset, snap.start_line, snap.bytes))
 }
 
+/// Like [`ring_run`], but returns what the reader entry points attach as snippet text:
+/// `(snapshot.starts_at_line_start, line_aligned_text, its start line)`.
+pub fn ring_run_aligned(
+    data: &[u8],
+    consume: usize,
+    read_size: usize,
+    inner_chunk: usize,
+) -> Option<(bool, String, usize)> {
+    let inner = ChunkReader {
+        data,
+        pos: 0,
+        max_chunk: inner_chunk,
+    };
+    let mut r = rr::RingReader::new(inner);
+    let mut left = consume;
+    let mut buf = vec![0u8; read_size.max(1)];
+    while left > 0 {
+        let want = left.min(buf.len());
+        let n = r.read(&mut buf[..want]).ok()?;
+        if n == 0 {
+            break;
+        }
+        left -= n;
+    }
+    let snap = r.get_recent().ok()?;
+    let (text, start_line) = snap.line_aligned_text();
+    Some((snap.starts_at_line_start, text.into_owned(), start_line))
+}
+
 pub const RING_BUFFER_SIZE: usize = rr::RING_BUFFER_SIZE;
 pub const MAX_READ_AHEAD: usize = rr::MAX_READ_AHEAD;
